@@ -37,7 +37,10 @@ Record cfg := {
                                    recomputed for the deployment id in force at query time) *)
   c_confirm_recomputes : bool;  (* ConfirmBatch verifies against GetCheckpoint(id in force now), not the
                                    stored BytesToSign *)
-  c_genesis_archives_live : bool (* InitGenesis archives the BytesToSign of every batch it imports *)
+  c_genesis_archives_live : bool; (* InitGenesis archives the BytesToSign of every batch it imports *)
+  c_redeploy_reissues : bool    (* on EVMActivatedChainEvent (compass activated) every open batch of the chain gets
+                                   its BytesToSign recomputed for the event's id, stored AND archived
+                                   (refreshOpenBatchCheckpoints) *)
 }.
 
 Definition code_cfg : cfg := {|
@@ -47,7 +50,8 @@ Definition code_cfg : cfg := {|
   c_set_once := Gen.C13.estimate_set_once;
   c_queries_stored := Gen.C13.queries_serve_stored;
   c_confirm_recomputes := Gen.C13.confirm_verifies_recomputed;
-  c_genesis_archives_live := Gen.C13.genesis_archives_live |}.
+  c_genesis_archives_live := Gen.C13.genesis_archives_live;
+  c_redeploy_reissues := Gen.C13.redeploy_reissues_and_archives |}.
 
 (** The estimate that GetCheckpoint packs: the dummy when GasEstimate = 0. *)
 Definition eff_est (e : Z) : Z := if e =? 0 then Gen.C13.dummy_gas_estimate else e.
@@ -113,7 +117,9 @@ Section Model.
   | OUnjail (v : val)
   | OEvidence (chain body est : Z) (sg : Sig)   (* MsgSubmitBadSignatureEvidence, by anyone *)
   | OQuery (key : Z)                     (* a relayer reads batch [key] through one of the batch queries *)
-  | OGenesis.                            (* ExportGenesis, chain restarted with InitGenesis on an empty store *)
+  | OGenesis                             (* ExportGenesis, chain restarted with InitGenesis on an empty store *)
+  | OStaleActivate (chain tid : Z).      (* ActivateChainReferenceID with a contract version not above the active
+                                            one: chain info untouched, the activation event is published all the same *)
 
   (** The checkpoint of a stored batch under the deployment id in force NOW (what ConfirmBatch
       computes; [None]: chain unknown). *)
@@ -147,6 +153,25 @@ Section Model.
   Definition with_jailed (s : state) (j : list val) : state :=
     {| st_chains := st_chains s; st_batches := st_batches s; st_archive := st_archive s;
        st_issued := st_issued s; st_ever := st_ever s; st_reg := st_reg s; st_jailed := j |}.
+
+  (** refreshOpenBatchCheckpoints (skyway's handler of EVMActivatedChainEvent): every open batch of
+      [chain] whose BytesToSign differs from its checkpoint under [tid] gets the new one, which is
+      archived in the same cache context. *)
+  Definition recp (tid : Z) (b : batch) : Z := cp tid (b_body b) (eff_est (b_est b)).
+  Definition reissue_all (chain tid : Z) (bs : list batch) : list batch :=
+    map (fun b => if b_chain b =? chain
+                  then {| b_key := b_key b; b_chain := b_chain b; b_body := b_body b; b_est := b_est b; b_bts := recp tid b |}
+                  else b) bs.
+  Definition reissued (chain tid : Z) (bs : list batch) : list Z :=
+    map (recp tid) (filter (fun b => (b_chain b =? chain) && negb (recp tid b =? b_bts b)) bs).
+
+  Definition refresh (s : state) (chain tid : Z) : state :=
+    if c_redeploy_reissues g then
+      let pub := reissued chain tid (st_batches s) in
+      {| st_chains := st_chains s; st_batches := reissue_all chain tid (st_batches s);
+         st_archive := pub ++ st_archive s; st_issued := pub ++ st_issued s; st_ever := pub ++ st_ever s;
+         st_reg := st_reg s; st_jailed := st_jailed s |}
+    else s.
 
   Definition exec (s : state) (o : op) : state * res :=
     match o with
@@ -184,8 +209,8 @@ Section Model.
       | Some _ => (with_batches s (remove_batch (st_batches s) key) (st_archive s) [], ROk)
       end
     | OSetTid chain tid =>
-      ({| st_chains := set_tid (st_chains s) chain tid; st_batches := st_batches s; st_archive := st_archive s;
-          st_issued := st_issued s; st_ever := st_ever s; st_reg := st_reg s; st_jailed := st_jailed s |}, ROk)
+      (refresh {| st_chains := set_tid (st_chains s) chain tid; st_batches := st_batches s; st_archive := st_archive s;
+                  st_issued := st_issued s; st_ever := st_ever s; st_reg := st_reg s; st_jailed := st_jailed s |} chain tid, ROk)
     | OSetReg reg =>
       ({| st_chains := st_chains s; st_batches := st_batches s; st_archive := st_archive s;
           st_issued := st_issued s; st_ever := st_ever s; st_reg := reg; st_jailed := st_jailed s |}, ROk)
@@ -218,6 +243,11 @@ Section Model.
           st_archive := if c_genesis_archives_live g then map b_bts (st_batches s) else [];
           st_issued := map b_bts (st_batches s); st_ever := st_ever s;
           st_reg := st_reg s; st_jailed := st_jailed s |}, ROk)
+    | OStaleActivate chain tid =>
+      match chain_tid (st_chains s) chain with
+      | None => (s, RErrChain)
+      | Some _ => (refresh s chain tid, ROk)
+      end
     end.
 
   Definition step (s : state) (o : op) : state := fst (exec s o).
